@@ -332,3 +332,24 @@ def run(ck, facts):
             first_if = next((i for i, s in enumerate(top) if C.strip(s).get("k") == "if"), None)
             ck.expect(first_snake is not None and first_if is not None and first_snake < first_if, "R4", "read_file/outer-key-snake-before-branch", "",
                       "the outer key is not snake_cased before the table/scalar branch", C.loc(rf))
+
+    # ---------------- R5 values from the CLI and from #[diplomat::config] are parsed as TOML values (so typed keys can be set from every source)
+    ck.rule("R5", "values given on the command line and in #[diplomat::config] go through toml_value_from_str, which parses the text as the right-hand side of an assignment (a bare scalar is not a TOML document), falling back to a string")
+    import flow
+    tv = tool.fn("config::toml_value_from_str")
+    defs = flow.defs_of(tv)
+    parses = [x for x in C.calls_in(C.fn_body(tv)) if (C.callee(x) or "").endswith("toml::de::from_str") or (C.callee(x) or "").endswith("toml::from_str") or re.search(r"FromStr>::from_str$", C.callee(x) or "")]
+    okp = bool(parses)
+    detail = ""
+    for x in parses:
+        leaves = flow.trace(x["a"][0], defs)
+        lits = [l[1] for l in leaves if l[0] == "lit"]
+        as_value = any(re.search(r"=\s*\{", s) for s in lits) or "ValueDeserializer" in (C.callee(x) or "")
+        detail = "parses %s" % (lits or sorted(leaves)[:2])
+        okp = okp and as_value and any(l == ("param", "string") for l in leaves)
+    ck.expect(okp, "R5", "toml_value_from_str/parses-a-value", detail, "toml_value_from_str hands the raw text to the TOML *document* parser (%s): `true`, `5` and quoted strings can never parse, so boolean keys cannot be set from the CLI or from #[diplomat::config]" % detail, C.loc(tv))
+    fallback = any(x.get("k") == "call" and (x.get("ctor") or "").endswith("Value::String") for x in C.walk(C.fn_body(tv)))
+    ck.expect(fallback, "R5", "toml_value_from_str/string-fallback", "", "unparseable text no longer falls back to a string value", C.loc(tv))
+    rc = tool.fn("config::Config::read_cli_settings")
+    ck.expect(any((C.callee(x) or "").endswith("toml_value_from_str") for x in C.calls_in(C.fn_body(rc))), "R5", "read_cli_settings/uses-value-parser", "", "CLI values are not parsed with toml_value_from_str", C.loc(rc))
+    ck.expect(any((C.callee(x) or "").endswith("toml_value_from_str") for s_ in gs for x in C.calls_in(s_)), "R5", "gen/uses-value-parser", "", "#[diplomat::config] values are not parsed with toml_value_from_str", C.loc(gen))
